@@ -18,16 +18,23 @@ META = {
     "text": "PROVED for all inputs: check_mesh_iff (check_mesh nV tris = true <-> indices in range, no repeated vertex in a triangle, every directed edge exactly once "
             "and its reverse exactly once, every vertex referenced) and check_counts_iff (NumVert/NumTri agree, NumEdge = 3T/2, chi even, Genus = 1 - chi/2); "
             "pipeline_ok_sound (for every pass list and every run allowed by the per-pass effect relations, acceptance by pipeline_ok implies no stranded vertex, "
-            "no tombstone, sorted) and remove_unreferenced_no_stranded (the RemoveUnreferencedVerts row, on arrays). PROVED for a stated bound only: "
+            "no tombstone, sorted) and remove_unreferenced_no_stranded (the RemoveUnreferencedVerts row, on arrays). Also proved for all inputs (round 2): "
+            "is_manifold_implies_inv / is_manifold_gate_sound (IsManifold accepted => HalfedgeInv, for every array, so for every CreateHalfedges output), export_closed "
+            "(HalfedgeInv + no tombstone + no duplicate directed edge + vertices in range and referenced => the emitted triangles are Closed2Manifold and check_mesh accepts them), "
+            "reindex_verts_preserves_inv (for every vertNew2Old), stable_sort_contract (the sort model is a stable sort), exec_remove_unreferenced_derived and "
+            "sort_geometry_no_tombstone_partial (table rows derived from the ported functions). PROVED for a stated bound only: "
             "is_manifold_gate_partial (ported CreateHalfedges + IsManifold: accepted iff directed edges balance, HalfedgeInv and opposed-pair removal facts, "
             "exhaustively for all lists of <= 3 triangles over 4 vertices, a 14 400-list family of 4 triangles, and all pairs over 5 vertices). "
             "CHECKED, not proved: the pass tables are read from src/*.cpp by translate/c01_pipeline.py and judged by the extracted pipeline_ok (a rejected pipeline is a "
             "broken obligation, reported through the concrete failing program when the search finds one); the CreateHalfedges port is compared with Impl::CreateHalfedges "
-            "on generated soups (opposed pairs, duplicates, flips); every Manifold produced by generated programs of public operations (constructors, import, Booleans incl. "
+            "on generated soups (opposed pairs, duplicates, flips); the ports of PairUp, CollapseTri, RemoveIfFolded (all branches, hand-built folded/pillow states), FlipTris, "
+            "ReindexVerts, RemoveUnreferencedVerts, SortVerts and SortFaces (Morton orders replayed from the implementation) are compared array-for-array with the real Impl "
+            "methods after every step, and the extracted halfedge_inv / nan_iff_unreferenced / check_mesh judge the implementation's arrays; every Manifold produced by generated programs of public operations (constructors, import, Booleans incl. "
             "lattice/coincident operands, splits, transforms, warps, hulls, Minkowski, level sets, smoothing, refinement, simplification, decompose/compose, properties) is "
             "exported with GetMeshGL64, merged, and judged by the extracted checker; error Status must come with an empty Manifold; positions/properties must be finite.",
-    "note": "Not reached (DESIGN.md C01 plan): the unbounded is_manifold_gate, edge_op_preserves_inv (PairUp/CollapseTri/FlipTris/ReindexVerts/CollapseEdge/...), "
-            "cleanup_even_to_2manifold, compaction_exports_closed; the PAR range partition of CreateHalfedges and the >= 2^18-vertex bucket branch are not modelled "
+    "note": "Not reached (DESIGN.md C01 plan): the completeness half of the unbounded is_manifold_gate (balanced => accepted; live triangles = input minus opposed pairs), "
+            "invariant-preservation THEOREMS for PairUp/CollapseTri/FlipTris/GatherFaces/RemoveIfFolded/SwapEdge/CollapseEdge (only checked by correspondence + extracted invariants), "
+            "cleanup_even_to_2manifold, the compaction half of compaction_exports_closed (SortVerts/SortFaces keep the invariant and make every vertex referenced); the PAR range partition of CreateHalfedges and the >= 2^18-vertex bucket branch are not modelled "
             "(exercised only end-to-end in the thorough tier with real TBB). The per-pass effect relations are hand-written from reading the code (trusted) except the "
             "RemoveUnreferencedVerts row; generators of ShapeCtor/Sphere/Extrude/Hull are assumed to strand nothing (listed assumptions). So for the property's own "
             "quantifier (all programs) the guarantee is: theorem for the oracle and the abstract pass analysis, testing for everything else.",
@@ -636,6 +643,25 @@ def replay(cx, exe, drv, path):
         atexit.register(lambda: open(evp, "w").write(saved))
     obj = json.load(open(path))
     rep = obj.get("replay", obj)
+    if "program" not in rep and str(rep.get("case", "")).startswith(("OPS ", "CH ")):
+        # an Impl-level case: print both sides (implementation arrays, extracted model + invariants)
+        name = "c01_ops" if rep["case"].startswith("OPS ") else "c01_topo"
+        hx = vp.build_harness(name, "seq", link_lib=True)
+        rc, out_i, err = vp.sh2([hx], input=rep["case"] + "\n", timeout=120)
+        print("replay of", path, "\n  case:", rep["case"][:400], "\n  implementation:\n" + out_i)
+        mcase = rep["case"]
+        if name == "c01_ops":          # hand the model the permutations the implementation chose
+            perms = {int(l.split()[2]): l.split()[3:] for l in out_i.splitlines() if l.startswith("P ")}
+            segs = mcase.split("|")
+            for i in range(1, len(segs)):
+                if segs[i].split()[0] in ("sortverts", "sortfaces"):
+                    segs[i] = " %s %s " % (segs[i].split()[0], " ".join(perms.get(i, [])))
+            mcase = "|".join(segs)
+        rc, out_m, err = vp.sh2([drv], input=mcase + "\n", timeout=120)
+        print("  extracted model (A = arrays, O = halfedge_inv nan_iff_unreferenced in_range):\n" + out_m)
+        if out_i.strip() and [l for l in out_i.splitlines() if l[:2] in ("A ", "H ", "M ")] != [l for l in out_m.splitlines() if l[:2] in ("A ", "H ", "M ")]:
+            cx.violation(obj.get("key", "replayed-case"), "replayed case still differs from the model / fails the invariants", rep)
+        return
     line = rep["program"]
     t = line.split()
     ins = [seg.split() for seg in line.split("|")[1:]]
@@ -857,6 +883,239 @@ def topo_correspondence(cx, drv):
     return len(cases), nontriv
 
 
+# ------------------------------------------------------------------ edge-operation correspondence
+
+def raw_from_tris(T):
+    """halfedge arrays (start, pair) of a closed mesh without duplicate directed edges"""
+    pos = {}
+    for t, (a, b, c) in enumerate(T):
+        pos[(a, b)] = 3 * t; pos[(b, c)] = 3 * t + 1; pos[(c, a)] = 3 * t + 2
+    H = []
+    for t, (a, b, c) in enumerate(T):
+        H += [[a, pos[(b, a)]], [b, pos[(c, b)]], [c, pos[(a, c)]]]
+    return H
+
+
+def base_mesh(rng):
+    k = rng.randrange(4)
+    if k == 0:
+        return 4, [(0, 2, 1), (0, 3, 2), (0, 1, 3), (1, 2, 3)]
+    if k == 1:
+        T, r = [], [2, 3, 4, 5]
+        for i in range(4):
+            T += [(0, r[i], r[(i + 1) % 4]), (1, r[(i + 1) % 4], r[i])]
+        return 6, T
+    if k == 2:
+        n, m = rng.choice([(3, 3), (3, 4), (4, 4)])
+        v = lambda i, j: (i % n) * m + (j % m)
+        T = []
+        for i in range(n):
+            for j in range(m):
+                T += [(v(i, j), v(i + 1, j), v(i + 1, j + 1)), (v(i, j), v(i + 1, j + 1), v(i, j + 1))]
+        return n * m, T
+    T = []
+    for o in (0, 4):
+        T += [(o, o + 2, o + 1), (o, o + 3, o + 2), (o, o + 1, o + 3), (o + 1, o + 2, o + 3)]
+    return 8, T
+
+
+def add_flap(nV, H, e):
+    """glue two opposed triangles (a,b,c),(b,a,c) with a new vertex b into the edge e = a->c:
+    the folded configuration an edge collapse leaves behind.  Returns (nV', index of a->b)."""
+    e2 = H[e][1]
+    a, c = H[e][0], H[e2][0]
+    b = nV
+    k = len(H)
+    # tri0 = (a,b,c): k:a->b, k+1:b->c, k+2:c->a ; tri1 = (b,a,c): k+3:b->a, k+4:a->c, k+5:c->b
+    H += [[a, k + 3], [b, k + 5], [c, e], [b, k], [a, e2], [c, k + 1]]
+    H[e][1] = k + 2
+    H[e2][1] = k + 4
+    return nV + 1, k
+
+
+def gen_ops_case(rng, family):
+    nV, T = base_mesh(rng)
+    H = raw_from_tris(T)
+    nbase = len(H)
+    flaps = []
+    if family == "pillow":                       # an isolated pair of opposed triangles
+        k = len(H)
+        a, b, c = nV, nV + 1, nV + 2
+        H += [[a, k + 3], [b, k + 5], [c, k + 4], [b, k], [a, k + 2], [c, k + 1]]
+        nV += 3
+        flaps.append(k)
+    else:
+        used = set()
+        for _ in range(rng.choice([1, 1, 2, 3])):
+            e = rng.randrange(nbase)             # flaps only on distinct edges of the base mesh (no flap on a flap:
+            if e in used or H[e][1] >= nbase:    # the shared vertex would be pinched, outside RemoveIfFolded's contract)
+                continue
+            used.add(e); used.add(H[e][1])
+            nV, k = add_flap(nV, H, e)
+            flaps.append(k)
+        if not flaps:
+            nV, k = add_flap(nV, H, 0)
+            flaps.append(k)
+    ops = []
+    if family in ("folded", "pillow"):
+        if rng.random() < 0.2:
+            ops.append(["fliptris"])             # no tombstones yet
+        for k in flaps:
+            # the three halfedges of tri0 and of tri1 reach the different branches of RemoveIfFolded
+            ops.append(["removeiffolded", str(k + rng.choice([0, 0, 1, 2, 3, 4, 5]))])
+            if rng.random() < 0.3:
+                ops.append(["removeiffolded", str(rng.randrange(len(H)))])
+        tail = rng.choice([["sortverts", "sortfaces"], ["sortfaces", "sortverts"], ["sortverts", "sortfaces", "fliptris"],
+                           ["removeunref", "sortverts", "sortfaces"], ["sortverts"], []])
+        ops += [[o] for o in tail]
+    elif family == "valid":
+        dead = False
+        for _ in range(rng.randrange(1, 6)):
+            o = rng.choice(["removeiffolded", "fliptris", "reindexfull", "removeunref", "sortverts", "sortfaces", "removeiffolded"])
+            if o == "fliptris" and dead:
+                continue                             # FlipTris is only used on nodes without tombstones
+            if o == "removeiffolded":
+                ops.append([o, str(rng.choice(flaps) + rng.randrange(6) if rng.random() < 0.7 else rng.randrange(len(H)))])
+                dead = True
+            elif o == "reindexfull":
+                perm = list(range(nV)); rng.shuffle(perm)
+                ops.append([o] + [str(x) for x in perm])
+                ops.append(["sortverts"]); ops.append(["sortfaces"])     # keeps later indices meaningful
+                break
+            else:
+                ops.append([o])
+                if o in ("sortverts", "sortfaces"):
+                    break                            # indices of later ops would be stale
+    else:                                            # "free": also the non-preserving primitives, stranded vertices
+        nV += rng.choice([0, 1, 2])
+        for _ in range(rng.randrange(1, 6)):
+            o = rng.choice(["pairup", "collapsetri", "removeiffolded", "fliptris", "collapsetri", "removeunref"])
+            if o == "pairup":
+                ops.append([o, str(rng.randrange(len(H))), str(rng.randrange(len(H)))])
+            elif o in ("fliptris", "removeunref"):
+                ops.append([o])
+            else:
+                ops.append([o, str(rng.randrange(len(H)))])
+    return nV, H, ops
+
+
+def ops_line(cid, nV, H, ops):
+    return "OPS %s %d %d %s %s" % (cid, nV, len(H), " ".join("%d %d" % (s, p) for s, p in H), " ".join("| " + " ".join(o) for o in ops))
+
+
+def ops_correspondence(cx, drv):
+    """Extracted ports of PairUp/CollapseTri/RemoveIfFolded/FlipTris/ReindexVerts/RemoveUnreferencedVerts/
+    SortVerts/SortFaces vs the real Manifold::Impl methods, arrays compared after every step; the extracted
+    invariants (HalfedgeInv, NaN iff unreferenced) judge the implementation's arrays."""
+    exe = vp.build_harness("c01_ops", "seq", link_lib=True)
+    rng = random.Random(cx.seed * 911 + 3)
+    cases = {}
+    fam_n = {}
+    for n in range(cx.pick(1200, 20000)):
+        fam = rng.choices(["folded", "pillow", "valid", "free"], [40, 8, 32, 20])[0]
+        fam_n[fam] = fam_n.get(fam, 0) + 1
+        cases["o%d" % n] = (fam,) + gen_ops_case(rng, fam)
+    lines = [ops_line(k, nV, H, ops) for k, (fam, nV, H, ops) in cases.items()]
+    kl = lambda l: l.split()[1]
+    ko = lambda l: l.split()[1] if l[:2] == "E " else None
+    out_i, crashes = vp.run_cases(exe, lines, kl, ko, timeout=600)
+    for cl, rc, err in crashes:
+        cx.violation("edgeop-crash", "a simple edge operation crashed (rc=%s) on a hand-built halfedge state" % rc, {"case": cl[:2000]})
+    impl, perms = {}, {}
+    for l in out_i.splitlines():
+        t = l.split(None, 3)
+        if len(t) >= 3 and t[0] == "A":
+            impl[(t[1], int(t[2]))] = t[3] if len(t) > 3 else ""
+        elif len(t) >= 3 and t[0] == "P":
+            perms[(t[1], int(t[2]))] = t[3] if len(t) > 3 else ""
+    # the model replays the geometric decisions (Morton order) the implementation took
+    mlines = []
+    for k, (fam, nV, H, ops) in cases.items():
+        ops2 = []
+        for i, o in enumerate(ops):
+            if o[0] in ("sortverts", "sortfaces"):
+                ops2.append([o[0]] + perms.get((k, i + 1), "").split())
+            else:
+                ops2.append(o)
+        mlines.append(ops_line(k, nV, H, ops2))
+    rc, out_m, err = vp.sh2([drv], input="\n".join(mlines) + "\n", timeout=900)
+    if rc != 0:
+        cx.broke("corr:C01/ops-driver", "model driver exited %d: %s" % (rc, err[-300:]))
+    model, orc = {}, {}
+    for l in out_m.splitlines():
+        t = l.split(None, 3)
+        if len(t) >= 3 and t[0] == "A":
+            model[(t[1], int(t[2]))] = t[3] if len(t) > 3 else ""
+        elif len(t) >= 3 and t[0] == "O":
+            orc[(t[1], int(t[2]))] = t[3]
+    mism, steps, branch, exported, bad_export = 0, 0, {}, [], 0
+    orc_req = []
+    for k, (fam, nV, H, ops) in cases.items():
+        for i in range(len(ops) + 1):
+            a, b = impl.get((k, i)), model.get((k, i))
+            if a is None:
+                continue
+            steps += 1
+            if i > 0:
+                branch[ops[i - 1][0]] = branch.get(ops[i - 1][0], 0) + (0 if a == "SKIP" or a == impl.get((k, i - 1)) else 1)
+            if a != b:
+                mism += 1
+                if a != "SKIP":
+                    orc_req.append((k, i, a))
+                if mism <= 3:
+                    cx.broke("corr:C01/edge_ops#%s step %d" % (k, i), "model and implementation differ after `%s` (family %s): impl=%s model=%s" % (
+                        " ".join(ops[i - 1][:4]) if i else "init", fam, a[:200], str(b)[:200]))
+            elif fam in ("folded", "pillow", "valid") and a != "SKIP" and orc.get((k, i)) != "1 1 1":
+                # arrays agree, so the extracted invariants computed on the model state are the implementation's
+                cx.broke("model:C01/edge_ops#%s step %d" % (k, i), "invariants %s fail after `%s` on both sides" % (orc.get((k, i)), " ".join(ops[i - 1][:4]) if i else "init"))
+        last = len(ops)
+        if fam in ("folded", "pillow", "valid") and len(ops) >= 2 and [o[0] for o in ops[-2:]] in (["sortverts", "sortfaces"], ["sortfaces", "sortverts"]):
+            a = impl.get((k, last))
+            if a and a != "SKIP":
+                hpart, npart = a.split(" N")
+                st = hpart.split()[1::2]
+                de = [(st[3 * (j // 3) + j % 3], st[3 * (j // 3) + (j + 1) % 3]) for j in range(len(st))]
+                if len(set(de)) != len(de):
+                    continue                         # a remaining flap: 4-manifold edge, not claimed closed (Is2Manifold fails too)
+                nv = len(npart.split())
+                nt = len(st) // 3
+                chi_e = 3 * nt // 2
+                exported.append("MESH %s %d %d %d %d %d %d %s" % (k, nv, nv, chi_e, nt, 0, nt, " ".join(st)))
+    # oracle on implementation arrays where they differ from the model
+    if orc_req:
+        ql = []
+        for k, i, a in orc_req[:200]:
+            hpart, npart = a.split(" N")
+            hv = hpart.split()[1:]
+            nvv = npart.split()
+            ql.append("ORC %s %d %d %d %s %s" % (k, i, len(nvv), len(hv) // 2, " ".join(hv), " ".join(nvv)))
+        rc, out_o, err = vp.sh2([drv], input="\n".join(ql) + "\n", timeout=300)
+        res = {(l.split()[1], int(l.split()[2])): l.split(None, 3)[3] for l in out_o.splitlines() if l.startswith("O ")}
+        for k, i, a in orc_req[:200]:
+            fam, nV, H, ops = cases[k]
+            if fam in ("folded", "pillow", "valid") and res.get((k, i)) != "1 1 1" and orc.get((k, i - 1)) == "1 1 1" and impl.get((k, i - 1)) == model.get((k, i - 1)):
+                op = ops[i - 1][0]
+                inv_, nanok, rng_ = (res.get((k, i)) or "? ? ?").split()
+                what = ("leaves a vertex that is not NaN but unreferenced, or NaN but referenced" if nanok != "1" else "breaks HalfedgeInv")
+                cx.violation("edgeop-invariant@" + op, "Impl::%s on a valid halfedge state %s (extracted halfedge_inv=%s nan_iff_unreferenced=%s in_range=%s)" % (
+                    {"removeiffolded": "RemoveIfFolded", "fliptris": "FlipTris", "sortverts": "SortVerts", "sortfaces": "SortFaces",
+                     "removeunref": "RemoveUnreferencedVerts", "reindexfull": "ReindexVerts"}.get(op, op), what, inv_, nanok, rng_),
+                    {"case": ops_line(k, nV, H, ops[:i]), "step": i, "impl_after": a[:1500], "model_after": str(model.get((k, i)))[:1500]})
+    # compaction: after SortVerts + SortFaces from a valid state the exported triangles are a closed 2-manifold
+    ver = judge(drv, exported, 4)
+    for l in exported:
+        k = l.split()[1]
+        if not ver.get(k, (False, False))[0]:
+            bad_export += 1
+            fam, nV, H, ops = cases[k]
+            cx.violation("compaction-not-closed", "after SortVerts+SortFaces of a valid state the exported triangles fail the extracted check_mesh", {"case": ops_line(k, nV, H, ops)})
+    cx.cov["edge_ops_correspondence"] = {"cases": len(cases), "families": fam_n, "steps_compared": steps, "mismatches": mism,
+                                         "steps_that_changed_the_arrays": branch, "compacted_states_judged_by_check_mesh": len(exported),
+                                         "traces_validated_against_impl": len(cases) - len({k for k, i, a in orc_req})}
+    cx.log("correspondence edge ops: %d cases, %d steps, %d mismatches, changed: %s, %d compacted exports judged" % (len(cases), steps, mism, branch, len(exported)))
+    return steps, sum(branch.values())
+
+
 def prove_retry(cx):
     """cx.prove(), retried when the shared coq/Makefile lost a race with another check that was regenerating
     its coq/Gen/*.v at the same moment ('No rule to make target')."""
@@ -974,3 +1233,6 @@ def run(cx):
     ncorr, ntriv = topo_correspondence(cx, drv)
     cx.cov["evaluations"] += ncorr
     cx.cov["distinct_nontrivial"] += ntriv
+    nsteps, nchg = ops_correspondence(cx, drv)
+    cx.cov["evaluations"] += nsteps
+    cx.cov["distinct_nontrivial"] += nchg
